@@ -29,6 +29,7 @@ pub fn worker_main(ctx: Ctx) {
         let _ = g.flush();
     };
     send(&out, json!({"ready": true, "corpus": ctx.corpus.len()}));
+    let mut mem_capped = false;
     for line in stdin.lock().lines() {
         let line = match line {
             Ok(l) => l,
@@ -53,6 +54,17 @@ pub fn worker_main(ctx: Ctx) {
                 continue;
             }
         };
+        if !mem_capped && ename != "sched" {
+            // a runaway allocation (e.g. an underflowed loop bound pushing into a
+            // String) must end in an abort of this worker, not in an OOM of the sandbox.
+            // The sched engine maps a large NORESERVE range per run instead and
+            // caps its deterministic heap itself.
+            unsafe {
+                let lim = libc::rlimit { rlim_cur: 10 << 30, rlim_max: 10 << 30 };
+                libc::setrlimit(libc::RLIMIT_AS, &lim);
+            }
+            mem_capped = true;
+        }
         match op {
             "unit" => {
                 let unit = req.get("unit").and_then(|u| u.as_u64()).unwrap_or(0);
